@@ -129,23 +129,29 @@ pub fn pair_grid() -> Vec<(TypeGraph, &'static str)> {
     let mut out = vec![];
     for site in ROOT_SITES {
         for w in WRAPS {
-            if (*site == "event" || *site == "result_err") && *w != "direct" {
+            if *site == "result_err" && *w != "direct" {
                 continue;
             }
-            for edge_wrap in ["direct", *w] {
+            for (ei, edge_wrap) in ["direct", *w].into_iter().enumerate() {
                 for mode in ["none", "zod"] {
-                    let g = TypeGraph {
+                    let mut g = TypeGraph {
                         n_files: 2,
                         nodes: vec![
-                            graph::Node { name: "Outer".into(), is_enum: false, file: 1, serde: true },
-                            graph::Node { name: "Inner".into(), is_enum: false, file: 0, serde: true },
-                            graph::Node { name: "Level".into(), is_enum: true, file: 1, serde: true },
-                            graph::Node { name: "UnusedDto".into(), is_enum: false, file: 1, serde: true },
-                            graph::Node { name: "PlainHelper".into(), is_enum: false, file: 0, serde: false },
+                            graph::Node::new("Outer".into(), false, 1, true),
+                            graph::Node::new("Inner".into(), false, 0, true),
+                            graph::Node::new("Level".into(), true, 1, true),
+                            graph::Node::new("UnusedDto".into(), false, 1, true),
+                            graph::Node::new("PlainHelper".into(), false, 0, false),
+                            graph::Node::new("Marker".into(), false, 0, true),
                         ],
-                        edges: vec![graph::Edge { from: 0, to: 1, wrap: edge_wrap.to_string() }, graph::Edge { from: 1, to: 2, wrap: (*w).to_string() }],
+                        edges: vec![graph::Edge { from: 0, to: 1, wrap: edge_wrap.to_string() }, graph::Edge { from: 1, to: 2, wrap: (*w).to_string() }, graph::Edge { from: 1, to: 5, wrap: (*w).to_string() }],
                         roots: vec![graph::Root { site: site.to_string(), wrap: w.to_string(), node: 0, file: 0 }],
                     };
+                    // derive spellings and the unit-struct form rotate over the grid
+                    let k = out.len() / 2 + ei;
+                    g.nodes[1].derive = graph::DERIVE_FORMS[k % graph::DERIVE_FORMS.len()];
+                    g.nodes[2].derive = graph::DERIVE_FORMS[(k / 5) % graph::DERIVE_FORMS.len()];
+                    g.nodes[5].unit = true;
                     out.push((g, mode));
                 }
             }
@@ -160,7 +166,7 @@ fn random_case(t: &mut Tape) -> (TypeGraph, &'static str) {
 }
 
 pub fn run(ctx: &Ctx) {
-    ctx.set_rule("type graphs of 1-8 nodes (structs and unit enums; chains, diamonds, fan-out, cycles, self-loops) spread over 1-5 files, each edge through one of 16 wraps (direct, Option, Vec, HashSet, map value/key, tuple slots, two-level nestings), 1-3 roots through {param, return, Result ok arm, Result err arm, Channel<T>, event payload} with their own wraps, plus unreachable serde decoys and types without serde derive; both modes; a grid of every (root site x wrap x edge wrap) once, then random graphs; evaluation = one generation run; non-trivial = >=3 types, >=1 nested wrap, >=1 decoy");
+    ctx.set_rule("type graphs of 1-8 nodes (named-field and unit structs, unit enums; serde derive spelled as Serialize+Deserialize / one of them / serde::-qualified / in a separate derive attribute; chains, diamonds, fan-out, cycles, self-loops) spread over 1-5 files, each edge through one of 16 wraps (direct, Option, Vec, HashSet, map value/key, tuple slots, two-level nestings), 1-3 roots through {param, return, Result ok arm, Result err arm, Channel<T>, emit payload, emit_to payload} with their own wraps, plus unreachable serde decoys and types without serde derive; both modes; a grid of every (root site x wrap x edge wrap) once, then random graphs; evaluation = one generation run; non-trivial = >=3 types, >=1 nested wrap, >=1 decoy");
     ctx.set_exhaustive(false);
     ctx.assume("expected set = BFS over the graph model (error arms of Result do not make a type reachable)");
     let grid = pair_grid();
